@@ -28,8 +28,8 @@ ASSUMPTIONS = [
     'a refused open (no server on the PSM) must raise and leave the tables unchanged',
 ]
 MIN_EVENTS = {
-    'quick': {'table_comparisons': 12000, 'ops': 4000, 'reopen_after_close': 1000, 'cut_points': 500},
-    'thorough': {'table_comparisons': 60000, 'ops': 30000, 'reopen_after_close': 2000, 'cut_points': 800},
+    'quick': {'table_comparisons': 12000, 'ops': 4000, 'reopen_after_close': 1000, 'cut_points': 500, 'enhanced_refusals_attempted': 50, 'crossing_closes': 100},
+    'thorough': {'table_comparisons': 60000, 'ops': 30000, 'reopen_after_close': 2000, 'cut_points': 800, 'enhanced_refusals_attempted': 400, 'crossing_closes': 800},
 }
 CASE_TIMEOUT = 300
 
@@ -256,11 +256,30 @@ async def hist_case(case, r: R):
                 idx = rng.randrange(len(w.open[name]))
                 e0, ex, kind = w.open[name][idx]
                 end = e0 if op == 'close' else ex
+                other = ex if op == 'close' else e0
+                both = rng.random() < 0.2
                 try:
-                    await vloop.vwait(end.disconnect())
+                    if both:
+                        # both ends close the channel at the same time: the requests cross on the link
+                        r.ev('crossing_closes')
+                        t2 = asyncio.ensure_future(other.disconnect())
+                        await vloop.vwait(end.disconnect())
+                        try:
+                            await vloop.vwait(t2)
+                        except vloop.Hang:
+                            raise
+                        except Exception:
+                            r.ev('crossing_close_second_raised')   # already closed by the peer's request: fine
+                    else:
+                        await vloop.vwait(end.disconnect())
                 except vloop.Hang:
-                    r.bad(f'hang/disconnect/{kind}', f'disconnect() pending at T_v; history={w.history}')
+                    r.bad(f'hang/disconnect/{kind}' + ('/crossing' if both else ''),
+                          f'disconnect() pending at T_v; history={w.history}')
                     break
+                except Exception as e:
+                    if not both:
+                        raise
+                    r.ev('crossing_close_first_raised')
                 await w.rg.quiesce()
                 w.open[name].pop(idx)
                 closed_on.add(name)
@@ -269,7 +288,15 @@ async def hist_case(case, r: R):
                 kind = 'le-none' if tr == 'le' else 'br-none'
                 c0 = w.links[name][0]
                 try:
-                    await vloop.vwait(c0.create_l2cap_channel(spec=w.spec(kind)))
+                    if tr == 'le' and rng.random() < 0.5:
+                        # the enhanced variant: 1-5 channels refused in one response, from either end
+                        cx_, peer_ = w.links[name][1], w.links[name][2]
+                        iconn, idev = (cx_, peer_) if rng.random() < 0.4 else (c0, 0)
+                        r.ev('enhanced_refusals_attempted')
+                        await vloop.vwait(w.rg.devices[idev].l2cap_channel_manager.create_enhanced_credit_based_channels(
+                            iconn, w.spec(kind), rng.randint(1, 5)))
+                    else:
+                        await vloop.vwait(c0.create_l2cap_channel(spec=w.spec(kind)))
                     r.bad(f'tables/refuse/not-refused/{tr}', f'open on a PSM without server succeeded; history={w.history}')
                 except vloop.Hang:
                     r.bad(f'hang/open-refused/{tr}', f'refused open pending at T_v; history={w.history}')
